@@ -300,8 +300,9 @@ def rf16d(run):
 
 def rf16e(run):
     rule = 'RF16e'
-    run.rule(rule, 'MIR_load_module: the redefinition error is raised exactly under setup_global(...) reporting a previous entry, the item '
-                   'being a function, and redefinition not being permitted')
+    run.rule(rule, 'MIR_load_module: the redefinition error is raised exactly under "the name is already in the environment" (the result of '
+                   'setup_global or a probe of the environment table), the item being a function, and redefinition not being permitted; '
+                   'and it is raised before setup_global records the new definition (a rejected definition is not bound by later links)')
     tu = run.tu('mir')
     f = tu.func('MIR_load_module')
     cfg = f.cfg
@@ -313,7 +314,11 @@ def rf16e(run):
                       line=f.line)
         return
     conds = dominating_conditions(cfg, errs[0])
-    have = {'setup_global': any(c.startswith('setup_global(') and t for c, t in conds),
+
+    def defined_test(c):
+        cc = c.replace(' ', '')
+        return cc.startswith('setup_global(') or ('item_tab_find(' in cc and 'environment_module' in cc and ('!=0' in cc or '!=NULL' in cc))
+    have = {'name already defined (setup_global result, or a probe of the environment table)': any(defined_test(c) and t for c, t in conds),
             'function item': any('item_type == MIR_func_item' in c and t for c, t in conds),
             'not permitted': any(('func_redef_permission_p' in c) and ((c.startswith('!') and t) or (not c.startswith('!') and not t)) for c, t in conds),
             'exported': any('export_p' in c and t for c, t in conds)}
@@ -323,7 +328,7 @@ def rf16e(run):
             run.violation(rule, f, 'redefinition guard: %s' % k,
                           'the "prohibited for redefinition" error of MIR_load_module is no longer conditional on [%s]' % k, line=f.line)
     # no additional guard may weaken the rejection
-    extra = [c for c, t in conds if t and not (c.startswith('setup_global(') or 'item_type == MIR_func_item' in c or
+    extra = [c for c, t in conds if t and not (defined_test(c) or 'item_type == MIR_func_item' in c or
                                                  'func_redef_permission_p' in c or 'export_p' in c or c in ('(item != 0)', 'item') or
                                                  '__darwin' in c or 'strncmp' in c)]
     extra += [c for c, t in conds if (not t) and 'func_redef_permission_p' not in c]
@@ -332,6 +337,27 @@ def rf16e(run):
         run.violation(rule, f, 'additional guard on the redefinition error',
                       'the "prohibited for redefinition" error is additionally conditional on [%s]: a second exported function of the '
                       'same name is accepted whenever that condition is false' % '; '.join(x[:60] for x in extra), line=f.line)
+    # rejected means not recorded: the error function may return (longjmp); no path reaches the error after setup_global has
+    # overwritten the environment entry
+    sgb = calls_in(cfg, 'setup_global')
+    before = set()
+    # within one iteration of the loop over the items: the step of the enclosing loop ends the path
+    steps = set()
+    for lp in f.walk():
+        if lp['k'] == 'ForStmt' and lp['c'][2] is not None and any(y['k'] == 'CallExpr' and y.get('callee') == 'setup_global' for y in F.walk(lp)):
+            bstep = cfg.block_of(lp['c'][2])
+            if bstep is not None:
+                steps.add(bstep)
+    for b0 in sgb:
+        before |= cfg.reachable_from(b0, avoid=lambda b: b in steps)
+    # a setup_global call inside the condition that guards the error is the old form (its result is the test): it ran before
+    in_guard = any(c.replace(' ', '').startswith('setup_global(') for c, t in conds)
+    ok = not in_guard and errs[0] not in before
+    run.ob(rule, ('reject-before-record',), ok, {'error reachable after setup_global': not ok})
+    if not ok:
+        run.violation(rule, f, 'rejected definition recorded', 'the redefinition error is raised after setup_global has replaced the entry of the '
+                      'environment table: when the error function returns (longjmp), the next MIR_link binds imports to the rejected '
+                      'definition, whose thunk has no interface (crash)', line=f.line)
     # the global table is updated for every exported item: setup_global is called under export_p only
     sg = calls_in(cfg, 'setup_global')
     run.ob(rule, ('setup-global-called',), bool(sg))
